@@ -32,8 +32,8 @@ FILES = {
     "numba_scfg/core/transformations.py": ["C02", "C01", "C04", "C13", "C03", "C06", "C16", "C05", "C10", "C12", "C17"],
     "numba_scfg/core/datastructures/scfg.py": ["C02", "C01", "C04", "C13", "C14", "C16", "C15", "C18", "C03", "C06", "C05", "C10", "C12", "C17"],
     "numba_scfg/core/datastructures/basic_block.py": ["C02", "C01", "C06", "C14", "C04", "C05", "C09", "C15", "C17"],
-    "numba_scfg/networkx_vendored/scc.py": ["C13", "C02", "C01", "C12"],
-    "numba_scfg/core/datastructures/ast_transforms.py": ["C07", "C08", "C10", "C11", "C12"],
+    "numba_scfg/networkx_vendored/scc.py": ["C13", "C02"],
+    "numba_scfg/core/datastructures/ast_transforms.py": ["C08", "C07", "C10", "C11"],
     "numba_scfg/core/datastructures/flow_info.py": ["C09", "C17", "C12"],
     "numba_scfg/core/datastructures/byte_flow.py": ["C09", "C17"],
     "numba_scfg/core/utils.py": ["C09", "C17"],
